@@ -51,6 +51,47 @@ def run_all(argv):
     return rc
 
 
+def thorough_extras(prop, reg, R):
+    """thorough tier: the same rules on the cfg(test) build of the library (a violation must not hide in a configuration
+    the default build does not parse), an inventory of the binaries, and the checker's self-test on scratch copies"""
+    # 1. the library as built for `cargo test`
+    try:
+        p2, k2, dt2, c2 = extract.extract("libtest", force=True)
+        A2 = protocol.Analysis(p2)
+        R2 = framework.Report(prop, R.level)
+        reg[prop](A2, R2, "quick")
+        for o in R2.obs:
+            R.obs.append(framework.Ob(o.rule, "cfg(test) | " + o.key.split(" | ", 1)[1], o.ok, o.detail, o.site, o.what,
+                                      ("cfg(test) | " + o.skey.split(" | ", 1)[1]) if o.skey else None))
+        R.info["cfg_test_build"] = dict(bodies=len(A2.facts.bodies), obligations=len(R2.obs), source_hash=k2)
+    except Imprecision as e:
+        R.ob("A0", "cfg(test) | fail closed: %s" % e, False)
+    # 2. the three binaries only drive the library; they are inventoried (they must build under the driver)
+    try:
+        p3, k3, dt3, c3 = extract.extract("bins", force=False)
+        import mir
+        F3 = mir.Facts(p3)
+        R.info["binaries"] = dict(bodies=len(F3.bodies), units=F3.meta.get("units"))
+    except Exception as e:
+        R.info["binaries"] = dict(error=str(e)[:200])
+    # 3. self-test of the checker on the seeded / refactoring corpora (scratch copies outside /repo and /verif)
+    import selftest
+    try:
+        st = selftest.run(prop)
+    except Exception as e:
+        st = dict(error="%s: %s" % (type(e).__name__, e), must_fire=[], must_stay_silent=[], skipped=[])
+    mf = st.get("must_fire", [])
+    ms = st.get("must_stay_silent", [])
+    missed = [x["seed"] for x in mf if x["expected_to_fire"] and not x["fired"]]
+    noisy = [x["refactoring"] for x in ms if not x["silent"]]
+    R.info["selftest"] = dict(seeded_changes=len(mf), fired=sum(1 for x in mf if x["fired"]),
+                              expected_but_missed=missed, refactorings=len(ms), silent=sum(1 for x in ms if x["silent"]),
+                              false_alarms=noisy, skipped=st.get("skipped", []), error=st.get("error"),
+                              detail=dict(must_fire=mf, must_stay_silent=ms))
+    if missed or noisy or st.get("error"):
+        sys.stderr.write("SELFTEST of the %s check: missed seeds %s, refactorings with alarms %s %s\n" % (prop, missed, noisy, st.get("error") or ""))
+
+
 def main(argv):
     if argv and argv[0] == "--all":
         return run_all(argv[1:])
@@ -75,6 +116,8 @@ def main(argv):
                                   source_hash=key, facts_cached=cached)
         reg[prop](A, R, tier)
         R.info["partitions_run"] = A.stats["partitions"]
+        if tier == "thorough":
+            thorough_extras(prop, reg, R)
         notes = {}
         for r in A.runs.values():
             for k, v in r.notes.items():
